@@ -19,9 +19,18 @@ pub struct RunObs {
     pub timed_out: bool,
 }
 
-pub fn run_one(rt: &tokio::runtime::Runtime, irrd_port: u16, n: usize, fault: Option<(usize, Fault)>) -> RunObs {
+pub fn run_one(
+    rt: &tokio::runtime::Runtime,
+    irrd_port: u16,
+    n: usize,
+    fault: Option<(usize, Fault)>,
+) -> RunObs {
     let log = Arc::new(Mutex::new(Log::default()));
-    let script = Script { running: fakejunos::running_with(n), ephemeral: fakejunos::empty_config(), fault };
+    let script = Script {
+        running: fakejunos::running_with(n),
+        ephemeral: fakejunos::empty_config(),
+        fault,
+    };
     let log2 = log.clone();
     let connector = agent::verif::connector(move || {
         let script = script.clone();
@@ -32,15 +41,34 @@ pub fn run_one(rt: &tokio::runtime::Runtime, irrd_port: u16, n: usize, fault: Op
             Ok(t)
         })
     });
-    let res = rt.block_on(async {
-        tokio::time::timeout(Duration::from_secs(20), agent::verif::run_once(connector, "127.0.0.1", irrd_port, "bgpfu")).await
-    });
+    let res = std::panic::catch_unwind(std::panic::AssertUnwindSafe(|| {
+        rt.block_on(async {
+            tokio::time::timeout(
+                Duration::from_secs(20),
+                agent::verif::run_once(connector, "127.0.0.1", irrd_port, "bgpfu"),
+            )
+            .await
+        })
+    }));
+    // a panic inside run() itself (not in one of its tasks): the run did not report success
+    let res = match res {
+        Ok(r) => r,
+        Err(_) => Ok(Err(anyhow::anyhow!("run() panicked"))),
+    };
     // give the server task a moment to log what it has read
     std::thread::sleep(Duration::from_millis(5));
     let names = log.lock().unwrap().names.clone();
     match res {
-        Err(_) => RunObs { ok: false, names, timed_out: true },
-        Ok(r) => RunObs { ok: r.is_ok(), names, timed_out: false },
+        Err(_) => RunObs {
+            ok: false,
+            names,
+            timed_out: true,
+        },
+        Ok(r) => RunObs {
+            ok: r.is_ok(),
+            names,
+            timed_out: false,
+        },
     }
 }
 
@@ -48,8 +76,18 @@ pub fn run_one(rt: &tokio::runtime::Runtime, irrd_port: u16, n: usize, fault: Op
 /// set, PeerAS, AS-path regexp, attribute match); the others must still be loaded and committed.
 fn c15_family(rt: &tokio::runtime::Runtime, irrd_port: u16, opts: &Opts, sink: &mut Sink) {
     let mut rng = Rng::new(opts.seed ^ 0xC15);
-    let good: Vec<String> = vec!["{ 192.0.2.0/24^24-26 }".into(), "{ 2001:db8::/32^48 }".into(), "{ 198.51.100.0/24, 2001:db8:1::/48 }".into()];
-    let bad: Vec<String> = vec!["AS-DOESNOTEXIST".into(), "PeerAS".into(), "<^AS65000 .* AS65001$>".into(), "community(65000:1)".into(), "AS-NOPE AND { 10.0.0.0/8^+ }".into()];
+    let good: Vec<String> = vec![
+        "{ 192.0.2.0/24^24-26 }".into(),
+        "{ 2001:db8::/32^48 }".into(),
+        "{ 198.51.100.0/24, 2001:db8:1::/48 }".into(),
+    ];
+    let bad: Vec<String> = vec![
+        "AS-DOESNOTEXIST".into(),
+        "PeerAS".into(),
+        "<^AS65000 .* AS65001$>".into(),
+        "community(65000:1)".into(),
+        "AS-NOPE AND { 10.0.0.0/8^+ }".into(),
+    ];
     let n = if opts.thorough() { 120 } else { 24 };
     for i in 0..n {
         let ng = 1 + rng.below(3);
@@ -63,9 +101,29 @@ fn c15_family(rt: &tokio::runtime::Runtime, irrd_port: u16, opts: &Opts, sink: &
         }
         rng.shuffle(&mut stmts);
         let log = Arc::new(Mutex::new(Log::default()));
+        // which of the policies an earlier run has already installed: none, all, or a random subset
+        // (an unevaluable policy that IS installed takes another path through compare)
+        let installed: Vec<String> = match i % 3 {
+            0 => vec![],
+            1 => stmts.iter().map(|s| s.0.clone()).collect(),
+            _ => stmts
+                .iter()
+                .filter(|_| rng.chance(1, 2))
+                .map(|s| s.0.clone())
+                .collect(),
+        };
         let script = Script {
-            running: fakejunos::running_with_exprs(&stmts.iter().map(|(n, e, _)| (n.clone(), e.clone())).collect::<Vec<_>>()),
-            ephemeral: fakejunos::empty_config(),
+            running: fakejunos::running_with_exprs(
+                &stmts
+                    .iter()
+                    .map(|(n, e, _)| (n.clone(), e.clone()))
+                    .collect::<Vec<_>>(),
+            ),
+            ephemeral: if installed.is_empty() {
+                fakejunos::empty_config()
+            } else {
+                fakejunos::installed_with(&installed)
+            },
             fault: None,
         };
         let log2 = log.clone();
@@ -78,9 +136,32 @@ fn c15_family(rt: &tokio::runtime::Runtime, irrd_port: u16, opts: &Opts, sink: &
                 Ok(t)
             })
         });
-        let res = rt.block_on(async {
-            tokio::time::timeout(Duration::from_secs(20), agent::verif::run_once(connector, "127.0.0.1", irrd_port, "bgpfu")).await
-        });
+        let res = std::panic::catch_unwind(std::panic::AssertUnwindSafe(|| {
+            rt.block_on(async {
+                tokio::time::timeout(
+                    Duration::from_secs(20),
+                    agent::verif::run_once(connector, "127.0.0.1", irrd_port, "bgpfu"),
+                )
+                .await
+            })
+        }));
+        let res = match res {
+            Ok(r) => r,
+            Err(_) => {
+                let case = format!(
+                    "c15;{i};{};installed={}",
+                    stmts
+                        .iter()
+                        .map(|(n, e, _)| format!("{n}={}", hexs(e)))
+                        .collect::<Vec<_>>()
+                        .join(","),
+                    list(&installed)
+                );
+                sink.direct(&case, "violation run-panics".into());
+                sink.count("c15.runs");
+                continue;
+            }
+        };
         std::thread::sleep(Duration::from_millis(5));
         let g = log.lock().unwrap();
         let mut loaded: Vec<String> = g
@@ -96,7 +177,25 @@ fn c15_family(rt: &tokio::runtime::Runtime, irrd_port: u16, opts: &Opts, sink: &
         let mut want: Vec<String> = stmts.iter().filter(|s| s.2).map(|s| s.0.clone()).collect();
         want.sort();
         let committed = g.names.iter().any(|n| n == "commit-configuration");
-        let case = format!("c15;{i};{}", stmts.iter().map(|(n, e, _)| format!("{n}={}", hexs(e))).collect::<Vec<_>>().join(","));
+        let case = format!(
+            "c15;{i};{};installed={}",
+            stmts
+                .iter()
+                .map(|(n, e, _)| format!("{n}={}", hexs(e)))
+                .collect::<Vec<_>>()
+                .join(","),
+            list(&installed)
+        );
+        sink.count(&format!(
+            "c15.installed.{}",
+            if installed.is_empty() {
+                "none"
+            } else if installed.len() == stmts.len() {
+                "all"
+            } else {
+                "some"
+            }
+        ));
         let verdict = match &res {
             Err(_) => "violation run-hangs".to_string(),
             Ok(Err(_)) => "violation unevaluable-policy-aborts-run".to_string(),
@@ -108,7 +207,10 @@ fn c15_family(rt: &tokio::runtime::Runtime, irrd_port: u16, opts: &Opts, sink: &
         sink.count("c15.runs");
         sink.count(&format!("c15.bad.{nb}"));
         if sink.samples.len() < 8 {
-            sink.sample(format!("{case} -> result={:?} loaded={loaded:?}", res.as_ref().map(|r| r.is_ok())));
+            sink.sample(format!(
+                "{case} -> result={:?} loaded={loaded:?}",
+                res.as_ref().map(|r| r.is_ok())
+            ));
         }
     }
 }
@@ -117,13 +219,21 @@ pub fn main(opts: &Opts) {
     let mut sink = Sink::new();
     if opts.extra.iter().any(|e| e == "c15") {
         let irrd = FakeIrrd::start(HashMap::new());
-        let rt = tokio::runtime::Builder::new_multi_thread().worker_threads(4).enable_all().build().unwrap();
+        let rt = tokio::runtime::Builder::new_multi_thread()
+            .worker_threads(4)
+            .enable_all()
+            .build()
+            .unwrap();
         c15_family(&rt, irrd.port, opts, &mut sink);
         sink.write(opts, "agentrun");
         return;
     }
     let irrd = FakeIrrd::start(HashMap::new());
-    let rt = tokio::runtime::Builder::new_multi_thread().worker_threads(4).enable_all().build().unwrap();
+    let rt = tokio::runtime::Builder::new_multi_thread()
+        .worker_threads(4)
+        .enable_all()
+        .build()
+        .unwrap();
     let mut cases: Vec<(usize, Option<(usize, Fault)>)> = vec![];
     if let Some(p) = &opts.replay {
         for l in std::fs::read_to_string(p).unwrap().lines() {
@@ -141,12 +251,25 @@ pub fn main(opts: &Opts) {
             }
         }
     } else {
-        let ns: Vec<usize> = if opts.thorough() { vec![0, 1, 2, 3, 5, 8] } else { vec![0, 1, 2, 5] };
+        let ns: Vec<usize> = if opts.thorough() {
+            vec![0, 1, 2, 3, 5, 8]
+        } else {
+            vec![0, 1, 2, 5]
+        };
         for &n in &ns {
             cases.push((n, None));
             // every fault position × kind (exhaustive)
             for pos in 1..=(6 + n) {
-                for f in [Fault::RpcError, Fault::ErrWarnOk, Fault::ErrCount, Fault::WarnOk, Fault::Malformed, Fault::WrongId, Fault::CloseBefore, Fault::CloseAfter] {
+                for f in [
+                    Fault::RpcError,
+                    Fault::ErrWarnOk,
+                    Fault::ErrCount,
+                    Fault::WarnOk,
+                    Fault::Malformed,
+                    Fault::WrongId,
+                    Fault::CloseBefore,
+                    Fault::CloseAfter,
+                ] {
                     cases.push((n, Some((pos, f))));
                 }
             }
@@ -160,16 +283,33 @@ pub fn main(opts: &Opts) {
         let case = format!("{n};{ftok}");
         let o = run_one(&rt, irrd.port, n, fault.clone());
         // a warning with <ok/> is a positive acknowledgement: for the model there is no fault
-        let ftok = if matches!(fault, Some((_, Fault::WarnOk))) { "none".to_string() } else { ftok };
-        let closing = matches!(fault, Some((_, Fault::CloseBefore)) | Some((_, Fault::CloseAfter)));
+        let ftok = if matches!(fault, Some((_, Fault::WarnOk))) {
+            "none".to_string()
+        } else {
+            ftok
+        };
+        let closing = matches!(
+            fault,
+            Some((_, Fault::CloseBefore)) | Some((_, Fault::CloseAfter))
+        );
         let has = |x: &str| if o.names.iter().any(|m| m == x) { 1 } else { 0 };
         let obs = format!(
             "result={} commit={} closedb={} closesess={} names={}",
-            if o.timed_out { "timeout" } else if o.ok { "ok" } else { "err" },
+            if o.timed_out {
+                "timeout"
+            } else if o.ok {
+                "ok"
+            } else {
+                "err"
+            },
             has("commit-configuration"),
             has("close-configuration"),
             has("close-session"),
-            if closing { "*".to_string() } else { list(&o.names) }
+            if closing {
+                "*".to_string()
+            } else {
+                list(&o.names)
+            }
         );
         sink.corr(&case, format!("run model {n} {ftok}"), obs.clone());
         sink.spec(&case, format!("run spec {n} {ftok} {obs}"));
@@ -177,7 +317,10 @@ pub fn main(opts: &Opts) {
             sink.direct(&case, "violation run-hangs".into());
         }
         sink.count(&format!("n.{n}"));
-        sink.count(&format!("fault.{}", ftok.split(':').nth(1).unwrap_or("none")));
+        sink.count(&format!(
+            "fault.{}",
+            ftok.split(':').nth(1).unwrap_or("none")
+        ));
         sink.count(if o.ok { "result.ok" } else { "result.err" });
         if sink.samples.len() < 6 {
             sink.sample(format!("{case} -> {obs}"));
